@@ -134,9 +134,12 @@ def _job(a):
 ENDS = ('finish', 'begin', 'store', 'vote')
 
 
-def directed(flavour):
-    """The matrix the property quantifies over, as call sequences (TLC skips what is not enabled)."""
+def directed(flavour, quick=False, packs_only=False):
+    """The matrix the property quantifies over, as call sequences (TLC skips what is not enabled).
+    quick: a third of the undo x pack family (the packer transcription over histories with back-pointers is what TLC
+    evaluates slowest); packs_only: the families that pack (for pack_keep_old)."""
     S = []
+    P = []
     edits = {'create': lambda: bs.create(('a',)), 'create-empty': lambda: bs.create(()), 'rewrite': lambda: bs.rewrite(2, 'b'),
              'append': lambda: bs.append(2, 'b'), 'consume': lambda: bs.consume(2, 'b')}
     first = bs.create(('a',)) + bs.commit()                 # blob 2 exists (tid 3)
@@ -186,16 +189,18 @@ def directed(flavour):
             S.append(base + bs.append(2, 'a') + bs.undo(-1, end) + bs.commit() + bs.pack(0))
         for k in range(0, 4):
             for t in range(-3, 1):
-                S.append(base + bs.undo(-1) + bs.undo(0) + bs.undo(-k) + bs.pack(t) + bs.append(2, 'a') + bs.commit() + bs.undo(0) + bs.pack(0))
-                S.append(first + bs.undo(0) + bs.create(('b',)) + bs.commit() + bs.undo(-k) + bs.pack(t) + bs.pack(0) + bs.rewrite(3, 'a') + bs.commit())
+                if quick and (k + t) % 3:
+                    continue
+                P.append(base + bs.undo(-1) + bs.undo(0) + bs.undo(-k) + bs.pack(t) + bs.append(2, 'a') + bs.commit() + bs.undo(0) + bs.pack(0))
+                P.append(first + bs.undo(0) + bs.create(('b',)) + bs.commit() + bs.undo(-k) + bs.pack(t) + bs.pack(0) + bs.rewrite(3, 'a') + bs.commit())
     # packs at every time over a history of rewrites by both writers, repeated packs, commits afterwards
     hist = first + bs.other(2, 'b') + bs.append(2, 'a') + bs.commit() + bs.create(('b',)) + bs.commit() + bs.other(3, 'a')
     for t in range(-5, 1):
-        S.append(hist + bs.pack(t) + bs.rewrite(2, 'a') + bs.commit() + bs.pack(t) + bs.pack(0) + bs.other(2, 'b') + bs.pack(-1))
-        S.append(hist + bs.pack(t) + bs.pack(0) + bs.pack(-2))
+        P.append(hist + bs.pack(t) + bs.rewrite(2, 'a') + bs.commit() + bs.pack(t) + bs.pack(0) + bs.other(2, 'b') + bs.pack(-1))
+        P.append(hist + bs.pack(t) + bs.pack(0) + bs.pack(-2))
     for T in (1, 2, 9):
-        S.append(hist + bs.pack(T) + bs.pack(T) + bs.rewrite(3, 'b') + bs.commit())
-    return S
+        P.append(hist + bs.pack(T) + bs.pack(T) + bs.rewrite(3, 'b') + bs.commit())
+    return P if packs_only else S + P
 
 
 def random_script(rng, flavour, nblob):
@@ -403,16 +408,14 @@ def run(ctx):
             tag = fl + ('-keepold' if keep else '')
             rels = ['NextCommit', 'NextAbort', 'NextSp', 'NextPack'] + (['NextUndo'] if fl == 'mixin' else [])
             for rel in rels:
-                n = nsim // 2 if rel == 'NextPack' else nsim
+                n = nsim // 3 if rel == 'NextPack' else nsim
                 if keep and rel not in ('NextPack', 'NextUndo'):
                     continue
                 for part in range(1 if q else 4):
                     jobs.append(('sim', ('%s-%s-%d' % (tag, rel, part), c, rel, max(4, n // (1 if q else 4)), 45 if q else 60,
                                          seed * 1009 + 31 * part + len(rel) + (7 if keep else 0), sc, seed + part)))
             c4 = dict(c, NBlob=4, MaxTid=14)
-            d = directed(fl)
-            if q and keep:
-                d = [s for s in d if any(e['a'] == 'Pack' for e in s)][::3]
+            d = directed(fl, q, packs_only=keep)
             rng = random.Random('%s/%d/%s' % (fl, seed, keep))
             rs = [random_script(rng, fl, 4) for _ in range(nrand // (2 if keep else 1))]
             allscr = [('dir', d), ('rnd', rs)]
